@@ -192,7 +192,11 @@ def main(argv=None):
                 V.undecided.append(f"obligation {nm} (proved on the pinned tree) was not generated in this run")
 
     # 3. verdict per failing obligation -----------------------------------------------------------------
-    findings = [f for f in load_findings() if f["property"] == pid or pid in f.get("also", [])]
+    all_findings = load_findings()
+    findings = [f for f in all_findings if f["property"] == pid or pid in f.get("also", [])]
+    # a finding listed for another property still covers a failing obligation of a shared contract
+    shared = [f for f in all_findings if f not in findings and f["status"] == "open" and any(_match(nm, pat) for nm in ob_status if ob_status[nm] != "proved" for pat in f.get("obligations", []))]
+    findings = findings + shared
     wcache = {}
     failing = sorted(nm for nm, st in ob_status.items() if st != "proved")
     covered_by = {}
